@@ -334,6 +334,14 @@ impl LogWriter {
     }
 }
 
+#[cfg(raindb_verif)]
+impl LogWriter {
+    /// Verification accessor: the writer's offset within the current block.
+    pub(crate) fn verif_block_offset(&self) -> usize {
+        self.current_block_offset
+    }
+}
+
 impl fmt::Debug for LogWriter {
     fn fmt(&self, f: &mut fmt::Formatter<'_>) -> fmt::Result {
         f.debug_struct("LogWriter")
